@@ -147,6 +147,7 @@ def st_origins(ctx: Ctx):
     return st.fixed_dictionaries(
         {
             "ops": st.lists(og.st_origin(max_index=12), min_size=1, max_size=4),
+            "fresh": st.booleans(),
         }
     )
 
@@ -267,7 +268,9 @@ def check_origins(data: dict, lab: Labels) -> None:
 
     specs = data["ops"]
     sources = og.make_sources()
-    objs = [og.build_origin(s, sources) for s in specs]
+    fresh = bool(data.get("fresh"))
+    lab.tag_if(fresh, "distinct-equal-source-objects")
+    objs = [og.build_origin(s, sources, fresh) for s in specs]
     kinds = {m[0] for s in specs for m in (_members(s) or [["no"]])}
     srcs = {m[1] for s in specs for m in _members(s)}
     lab.nontrivial = len(specs) >= 2 and (len(kinds) >= 2 or len(srcs) >= 2)
